@@ -15,8 +15,7 @@ BOUNDS = ("Container.create_solution with 1-2 (thorough: 3) solutes out of {NaCl
           "mmol, U; total in mL, g, mol. Every value symbolic (concentrations in [1e-6, 1e4], quantities in [1e-6, 1e5]) "
           "so both sides of feasibility are explored. Lite rounding model; numpy.linalg.solve = exact contract.")
 OUTSIDE = ("IEEE rounding and LAPACK error; more than 3 solutes; "
-           "over-determined requests are explored for 2 solutes only (the library accepts residuals <= 1e-6, and so does "
-           "the oracle).")
+           "over-determined requests are explored for 2 solutes only (each stated value must be met to a relative 2e-6).")
 ASSUMPTIONS = ["numpy.linalg.solve replaced by: singular -> LinAlgError, otherwise the unique solution (Cramer's rule)",
                "instruction-text helpers are replaced by non-forking summaries (subject of C19)"]
 EXPECT_OUTCOMES = ['ok', 'refused']
@@ -254,6 +253,7 @@ def h_solution(h):
               detail=f"contents {sorted(s.name for s in sol.contents)} vs solutes+solvent {sorted(s.name for s in expected_keys)}")
     for s, a in sol.contents.items():
         h.require('amount>0', h.gt(a, 0), detail=f"{s.name} must be present in a positive amount")
+    # an over-determined request is met to a relative 2e-6 of each stated value (whatever its size)
     resid = Fr(2, 10**6) if overdetermined else 0
     # a container solvent is reduced to a pseudo substance whose molar mass uses the container's moles *rounded to
     # 10^-p mol* and its volume rounded to 10^-p mL: relative error ulp / (moles in mol) resp. ulp / mL (native / delta only)
@@ -268,17 +268,17 @@ def h_solution(h):
             num = lib.amount(solutes[i], sol.contents.get(solutes[i], 0), nb)
             den = lib.total(sol.contents, db)
             cval = cvals[i]
-            h.require('concentration-met', h.eq(num * scale, cval * den, h.rs(8 * h.ulp * scale * (1 + den)) + resid * scale + rel * cval * den),
+            h.require('concentration-met', h.eq(num * scale, cval * den, h.rs(8 * h.ulp * scale * (1 + den)) + resid * cval * den + rel * cval * den),
                       region=unit, detail=f"{solutes_n[i]} at the stated concentration in {unit}")
         elif kind == 'quantity':
             pf, qb = split_unit(unit)
             got = lib.amount(solutes[i], sol.contents.get(solutes[i], 0), qb)
-            h.require('quantity-met', h.eq(got, qvals[i] * PREFIX[pf], h.rs(4 * h.ulp * lib.amount(solutes[i], Fr(1), qb)) + resid + rel * got),
+            h.require('quantity-met', h.eq(got, qvals[i] * PREFIX[pf], h.rs(4 * h.ulp * lib.amount(solutes[i], Fr(1), qb)) + resid * qvals[i] * PREFIX[pf] + rel * got),
                       region=unit, detail=f"{solutes_n[i]} in the stated quantity ({unit})")
         else:
             pf, tb = split_unit(unit)
             tot = lib.total(sol.contents, tb)
-            h.require('total-met', h.eq(tot, T * PREFIX[pf], h.rs(8 * h.ulp * (1 + tot)) + resid + rel * tot), region=unit,
+            h.require('total-met', h.eq(tot, T * PREFIX[pf], h.rs(8 * h.ulp * (1 + tot)) + resid * T * PREFIX[pf] + rel * tot), region=unit,
                       detail=f"total quantity in {unit}")
     if container_solvent:
         # solvent part is a uniform aliquot of the container; nothing is lost
